@@ -90,7 +90,10 @@ class GroupSum(Contract):
         return binsum_checks(w, out[1], a["role"] is not None)
 
     def outcomes(self, I, ctx, a, old):
-        raise Unsupported("sum call-site contract not needed")
+        # call-site form: one (unspecified) value per group - callers that need more install their own site contract
+        w = ctx.ghost["gw"]
+        F = z3.Function(ctx.fresh_name("GROUPSUM"), z3.IntSort(), z3.RealSort())
+        return ("return", nparr.NArr(w.G, lambda g: Sym(F(B._z(g))), "float", "group-sum"))
 
     def small_model(self, I, case, a):
         return [a["__w"].N <= 3, a["__w"].G <= 3]
@@ -643,7 +646,7 @@ class GetRank(Contract):
         return [{"callee": self.name, "script": NATIVE, "op": "get_rank", "count": 3, "eid": eid, "values": vals[:len(eid)],
                  "inrole": (cond[:len(eid)] if case == "condition" else [True] * len(eid))}
                 for eid in ([1, 0, 0, 2, 0, 1], [2, 1, 0], [0, 0, 1], [1, 1, 0, 0], [2, 0, 1, 0, 1, 2], [0, 0, 0, 0])
-                for vals in ([30.0, 10.0, 20.0, 5.0, 40.0, 1.0], [1.0, 2.0, 3.0, 4.0, 5.0, 6.0], [6.0, 5.0, 4.0, 3.0, 2.0, 1.0])
+                for vals in ([30.0, 10.0, 20.0, 5.0, 40.0, 1.0], [1.0, 2.0, 3.0, 4.0, 5.0, 6.0], [6.0, 5.0, 4.0, 3.0, 2.0, 1.0], [5.0, 5.0, 5.0, 1.0, 1.0, 5.0])
                 for cond in ([True, False, True, True, True, False], [False, True, True, False, True, True])]
 
     def judge_native(self, I, case, call, nat):
@@ -690,6 +693,17 @@ class GroupWrappers(Contract):
                 ("the-reducer-of-this-operation", c.get("reducer") is I.ext["numpy"][fn]),
                 ("its-neutral-element", nok),
                 ("returns-the-reduction", out[0] == "return" and out[1] is calls[0]["value"])]
+
+
+def _wrapper_probes(self, case):
+    return [{"callee": self.name, "script": NATIVE, "op": case if case != "all" else "all_numeric", "role": role, "count": 3, "eid": eid,
+             "values": vals[:len(eid)], "inrole": [True, False, True, True, False, True][:len(eid)]}
+            for role in (False, True) for eid in ([1, 0, 0, 2, 0, 1], [0, 0, 1], [2, 2, 2, 0])
+            for vals in ([2.0, 3.0, 0.0, 7.0, 1.0, 4.0], [1.0, 1.0, 1.0, 1.0, 1.0, 1.0], [0.5, 2.0, 3.0, 0.0, 0.0, 9.0])]
+
+
+GroupWrappers.probes = _wrapper_probes
+GroupWrappers.judge_native = lambda self, I, case, call, nat: judge(nat)
 
 
 class GroupWrappersMin(GroupWrappers):
@@ -938,6 +952,86 @@ class ProjectorTransformsRole(ProjectorTransforms):
     cases = ("unique-role-to-entity",)
 
 
+
+class ProjectorFromShortcut(Contract):
+    name = f"{PROJ}.helpers.get_projector_from_shortcut"
+    prop = ("C10", "C02")
+    top_level = True
+    cases = tuple((k, h) for k in ("person-to-group", "first-person", "unique-role", "unique-subrole", "unknown-from-person", "unknown-from-group")
+                  for h in ("first-use", "used-before-under-another-parent"))
+    descr = ("a shortcut (person.household, household.first_person, household.<unique role>) resolves to a new projector of the kind "
+             "the shortcut names, onto the population it names, chained under the parent given to THIS call - also when the same "
+             "shortcut was resolved before under another parent (each chain projects through its own parents); an unknown shortcut "
+             "gives None")
+    inline = ("openfisca_core.entities.helpers.find_role", "openfisca_core.entities.role.Role.key",
+              f"{PROJ}.entity_to_person_projector.EntityToPersonProjector.__init__",
+              f"{PROJ}.first_person_to_entity_projector.FirstPersonToEntityProjector.__init__",
+              f"{PROJ}.unique_role_to_entity_projector.UniqueRoleToEntityProjector.__init__")
+    SHORTCUT = {"person-to-group": "household", "first-person": "first_person", "unique-role": "referent", "unique-subrole": "first_parent",
+                "unknown-from-person": "company", "unknown-from-group": "children"}
+
+    def setup(self, I, ctx, case):
+        kind, hist = case
+        R = I.resolve_qualified
+        ROLE = R("openfisca_core.entities.role.Role")
+        desc = lambda k: Opaque(None, "description", {"fields": {"key": k, "plural": None, "label": None, "doc": None}})
+        mk_role = lambda k, mx, subs=None: Obj(ROLE, {"description": desc(k), "max": mx, "subroles": subs}, label="role:" + k)
+        first_parent, second_parent = mk_role("first_parent", 1), mk_role("second_parent", 1)
+        roles = ListVal([mk_role("parent", 2, ListVal([first_parent, second_parent])), mk_role("child", None), mk_role("referent", 1)])
+        pent = Obj(R("openfisca_core.entities.entity.Entity"), {"key": "person", "is_person": True}, label="person-entity")
+        gent = Obj(R("openfisca_core.entities.group_entity.GroupEntity"), {"key": "household", "roles": roles, "containing_entities": TupleVal([]),
+                                                                           "is_person": False}, label="household-entity")
+        sim = Obj(R("openfisca_core.simulations.simulation.Simulation"), {}, label="sim")
+        persons = Obj(R(POP), {"entity": pent, "simulation": sim}, label="persons")
+        hh = Obj(R(GPOP), {"entity": gent, "simulation": sim, "members": persons}, label="households")
+        sim.fields["populations"] = dict_of([("person", persons), ("household", hh)])
+        sim.fields["persons"] = persons
+        frm = persons if kind in ("person-to-group", "unknown-from-person") else hh
+        parent = Obj(R(f"{PROJ}.projector.Projector"), {"reference_entity": frm, "parent": None}, label="parent-of-this-call")
+        a = {"population": frm, "shortcut": self.SHORTCUT[kind], "parent": parent, "__kind": kind, "__persons": persons, "__hh": hh,
+             "__roles": {"referent": roles.items[2], "first_parent": first_parent}, "__earlier": None}
+        if hist != "first-use":
+            other = Obj(R(f"{PROJ}.projector.Projector"), {"reference_entity": frm, "parent": None}, label="parent-of-an-earlier-call")
+            f, _ = self.target(I)
+            ctx.depth += 1
+            try:
+                a["__earlier"] = I.inline_call(ctx, f, [], {"population": frm, "shortcut": self.SHORTCUT[kind], "parent": other})
+                a["__earlier_none"] = I.inline_call(ctx, f, [], {"population": frm, "shortcut": self.SHORTCUT[kind], "parent": None})
+            finally:
+                ctx.depth -= 1
+        return a
+
+    def post(self, I, ctx, a, out, old):
+        kind = a["__kind"]
+        if out[0] != "return":
+            return [("no-exception", False)]
+        r = out[1]
+        if kind.startswith("unknown"):
+            return [("an-unknown-shortcut-gives-no-projector", r is None)]
+        if not isinstance(r, Obj):
+            return [("returns-a-projector", False)]
+        want_cls, ref = {"person-to-group": ("entity_to_person_projector.EntityToPersonProjector", a["__hh"]),
+                         "first-person": ("first_person_to_entity_projector.FirstPersonToEntityProjector", a["__persons"]),
+                         "unique-role": ("unique_role_to_entity_projector.UniqueRoleToEntityProjector", a["__persons"]),
+                         "unique-subrole": ("unique_role_to_entity_projector.UniqueRoleToEntityProjector", a["__persons"])}[kind]
+        res = [("a-projector-of-the-kind-the-shortcut-names", r.cls is I.resolve_qualified(f"{PROJ}.{want_cls}")),
+               ("onto-the-population-the-shortcut-names", r.fields.get("reference_entity") is ref),
+               ("chained-under-the-parent-of-this-call", r.fields.get("parent") is a["parent"])]
+        if kind in ("first-person", "unique-role", "unique-subrole"):
+            res.append(("projecting-the-group-it-was-asked-from", r.fields.get("target_entity") is a["__hh"]))
+        if kind in ("unique-role", "unique-subrole"):
+            res.append(("through-the-role-the-shortcut-names", r.fields.get("role") is a["__roles"]["referent" if kind == "unique-role" else "first_parent"]))
+        if a["__earlier"] is not None:
+            res.append(("not-a-projector-resolved-before-under-another-parent", r is not a["__earlier"] and r is not a["__earlier_none"]))
+        return res
+
+    def probes(self, case):
+        return [{"callee": self.name, "script": NATIVE, "op": "projector_chains", "count": 2, "eid": [1, 0], "values": [10.0, 20.0], "inrole": [True, True]}]
+
+    def judge_native(self, I, case, call, nat):
+        return judge(nat)
+
+
 def lemmas(prop, timeout_ms):
     if prop != "C10":
         return []
@@ -1016,4 +1110,4 @@ def lemmas(prop, timeout_ms):
     return recs
 
 
-CONTRACTS = [GetRank(), GroupSum(), GroupNbPersons(), GroupAny(), GroupProject(), MembersPosition(), ValueFromPerson(), ValueNthPerson(), GroupReduce(), GroupWrappers(), GroupWrappersMin(), GroupWrappersAll(), ValueFromFirstPerson(), ProjectorTransform(), ProjectorTransforms(), ProjectorTransformsFirst(), ProjectorTransformsRole()]
+CONTRACTS = [GetRank(), ProjectorFromShortcut(), GroupSum(), GroupNbPersons(), GroupAny(), GroupProject(), MembersPosition(), ValueFromPerson(), ValueNthPerson(), GroupReduce(), GroupWrappers(), GroupWrappersMin(), GroupWrappersAll(), ValueFromFirstPerson(), ProjectorTransform(), ProjectorTransforms(), ProjectorTransformsFirst(), ProjectorTransformsRole()]
